@@ -455,8 +455,80 @@ def _load_outcome(m):
     return "tags"
 
 
+def gen_chap_file(rng):
+    """a small file with moov.mvhd and moov.udta.chpl (Nero chapters), often damaged; returns (bytes, label)"""
+    ver = rng.choice([0, 0, 0, 1, 1, 2, 255])
+    ts = rng.choice([1000, 1000, 600, 44100, 1, 0, 0x7fffffff, 0x80000000, 0xffffffff])
+    if ver == 1:
+        mv = bytes([1, 0, 0, 0]) + b"\0" * 16 + struct.pack(">I", ts) + struct.pack(">Q", rng.choice([0, 5000, 2 ** 63]))
+    else:
+        mv = bytes([ver, 0, 0, 0]) + b"\0" * 8 + struct.pack(">I", ts) + struct.pack(">I", rng.choice([0, 5000, 0xffffffff]))
+    r = rng.random()
+    if r < 0.25:
+        mv = mv[:rng.randrange(0, len(mv) + 1)]
+    elif r < 0.3:
+        mv += b"xx"
+    titles = [b"Intro", "Caf\u00e9 \u4e16".encode("utf-8"), b"", b"\xff\xfe", b"\xc3", b"x" * 40, b"\xed\xa0\x80"]
+    n = rng.choice([0, 1, 1, 2, 3])
+    ents = b""
+    for _ in range(n):
+        t = rng.choice(titles[:3]) if rng.random() < 0.75 else rng.choice(titles)
+        ln = len(t) if rng.random() < 0.85 else rng.choice([0, len(t) + 3, 255, max(0, len(t) - 1)])
+        ents += struct.pack(">Q", rng.choice([0, 10000000, 123456789, 2 ** 64 - 1, 2 ** 53 + 1, 30000])) + bytes([ln]) + t
+    cnt = n if rng.random() < 0.8 else rng.choice([0, n + 1, 255, max(0, n - 1)])
+    ch = bytes([rng.choice([0, 1, 7]), 0, 0, 0]) + rng.choice([b"\0" * 4, b"\1\2\3\4"]) + bytes([cnt]) + ents
+    r = rng.random()
+    if r < 0.25:
+        ch = ch[:rng.randrange(0, len(ch) + 1)]
+    elif r < 0.35:
+        ch += b"trailing"
+    kids = []
+    feats = ["v%d" % ver]
+    if rng.random() < 0.93:
+        kids.append(box(b"mvhd", mv))
+    else:
+        feats.append("no-mvhd")
+    udta = []
+    if rng.random() < 0.5:
+        udta.append(box(b"meta", b"\0\0\0\0" + box(b"hdlr", b"\0" * 8 + b"mdirappl" + b"\0" * 9) + box(b"ilst", box(b"\xa9nam", box(b"data", b"\0\0\0\1\0\0\0\0hi")))))
+        feats.append("tags")
+    if rng.random() < 0.93:
+        udta.append(box(b"chpl", ch))
+    else:
+        feats.append("no-chpl")
+    if rng.random() < 0.1:
+        udta.append(box(b"chpl", b"\0" * 9))
+        feats.append("two-chpl")
+    rng.shuffle(udta)
+    kids.append(box(b"udta", b"".join(udta)))
+    rng.shuffle(kids)
+    data = box(b"ftyp", b"M4A \0\0\0\0") + box(b"moov", b"".join(kids))
+    if rng.random() < 0.1:
+        data = data[:len(data) - rng.randrange(1, 12)]
+        feats.append("cut")
+    return data, "chap:" + "+".join(feats)
+
+
+def _chap_real(r):
+    if r.chapters is None:
+        return None
+    return [(c.start, c.title) for c in r.chapters]
+
+
+def _chap_model(field):
+    if field in (None, "-"):
+        return None
+    ts, _, rest = field.partition(";")
+    ts = int(ts)
+    out = []
+    for e in [x for x in rest.split(",") if x]:
+        st, _, th = e.partition(":")
+        out.append((int(st) / 10000 / ts, bytes.fromhex(th).decode("utf-8")))
+    return out
+
+
 def run_load_faults(ctx):
-    """for generated files (without a chapter list): one clean `MP4(FaultFile)` — the file-object calls behind loadfile's
+    """for generated files (with and without a Nero chapter list): one clean `MP4(FaultFile)` — the file-object calls behind loadfile's
     read(0) must be exactly the model's log — then an IOError at every call index and short reads (0, 1, n/2) at every
     read: outcome class, has-tags, file untouched, close() never called.  Returns the number of comparisons."""
     from fobj import FaultFile
@@ -467,8 +539,8 @@ def run_load_faults(ctx):
     tried = 0
     while nfiles > 0 and tried < 20000:
         tried += 1
-        data, label = gen_file(rng)
-        if len(data) > 900 or b"chpl" in data:
+        data, label = gen_chap_file(rng) if rng.random() < 0.45 else gen_file(rng)
+        if len(data) > 900:
             continue
         base = {"layout": label, "data": hx(data)}
         ref = FaultFile(data)
@@ -485,7 +557,9 @@ def run_load_faults(ctx):
         line0 = "mp4 op=loadm data=%s" % hx(data)
         nfiles -= 1
         ctx.hist["mp4load:clean:" + st0] += 1
-        reqs.append((line0, (st0, None if k0 != "ok" else (r0.tags is not None), tail), dict(base, fault="none")))
+        reqs.append((line0, (st0, None if k0 != "ok" else (r0.tags is not None), tail), dict(base, fault="none", chap=(_chap_real(r0) if k0 == "ok" else None))))
+        if k0 == "ok" and r0.chapters is not None:
+            ctx.hist["mp4load:chapters:%d" % min(len(r0.chapters), 3)] += 1
         plans = [("io", j, None) for j in (range(len(tail)) if len(tail) <= ctx.budget(120, 1500) else sorted(rng.sample(range(len(tail)), 80)))]
         for j, c in enumerate(tail):
             if c.startswith("r") and c[1:].isdigit() and int(c[1:]) > 0:
@@ -503,6 +577,7 @@ def run_load_faults(ctx):
             case = dict(base, fault=what, index=a, short_to=b, first_modelled_call=n0)
             if k == "hang":
                 ctx.violation("mp4file:load-faults:hang", "did not finish", case); continue
+            case["chap"] = _chap_real(r) if k == "ok" else None
             st = "ok" if k == "ok" else classify(r)
             ctx.case(key=("mp4load", label, what, a, b, len(data)), nontrivial=True, modelled=True)
             ctx.hist["mp4load:%s:%s" % (what, st)] += 1
@@ -530,6 +605,8 @@ def run_load_faults(ctx):
             elif mlog != tail:
                 ctx.disagree("mp4 load model: order of the file-object calls (%s)" % case.get("fault"), case,
                              model=",".join(mlog)[:300], impl=",".join(tail)[:300])
+            elif mst == "ok" and _chap_model(mf.get("chap")) != case.get("chap"):
+                ctx.disagree("mp4 load model: chapters (%s)" % case.get("fault"), dict(case, chap=repr(case.get("chap"))), model=ans[:300], impl=repr(case.get("chap"))[:300])
     return len(reqs)
 
 
